@@ -7,36 +7,60 @@ import os
 import sys
 sys.path.insert(0, os.path.dirname(os.path.abspath(__file__)))
 from build import *            # noqa: E402,F401,F403
-from build_pomdp import build_pomdp   # noqa: E402
 
 
 LABELS = {
     "int": lambda i: i,
-    "str": lambda i: ["", "b", "a10", "a9", "Z"][i],           # "" is falsy; sorted order != id order
-    "tuple": lambda i: [(), (1,), (0, 1), (0,), (2,)][i],       # () is falsy
-    "float": lambda i: [0.0, -1.5, 2.0, 0.5, 0.001][i],         # 0.0 is falsy
+    "str": lambda i: ["", "b", "a10", "a9", "Z", "a", "z1", "B"][i],           # "" is falsy; sorted order != id order
+    "tuple": lambda i: [(), (1,), (0, 1), (0,), (2,), (1, 0), (0, 0), (3,)][i],   # () is falsy
+    "float": lambda i: [0.0, -1.5, 2.0, 0.5, 0.001, -0.25, 7.5, 1e3][i],          # 0.0 is falsy
 }
 
 
-def build_labelled(case, labels, reward_scale=1.0):
+OTHER_CASE = {   # an unrelated problem of another size with other labels (reuse / stale-result probes)
+    "n": 3, "nA": 3, "nO": 2, "actions": [[0, 1, 2]] * 3, "absorbing": [False, False, True],
+    "trans": {"0,0": [[0, "1"]], "1,0": [[1, "1"]], "2,0": [[2, "1"]], "0,1": [[2, "1"]], "1,1": [[2, "1"]],
+              "2,1": [[2, "1"]], "0,2": [[1, "1/2"], [0, "1/2"]], "1,2": [[0, "1"]], "2,2": [[2, "1"]]},
+    "reward": {"0,0,0": "-1", "1,0,1": "-1", "0,1,2": "40", "1,1,2": "-70", "0,2,1": "3"},
+    "obs": {"0,0": [[0, "3/4"], [1, "1/4"]], "0,1": [[1, "3/4"], [0, "1/4"]], "0,2": [[0, "1"]],
+            "1,0": [[0, "1/2"], [1, "1/2"]], "1,1": [[0, "1/2"], [1, "1/2"]], "1,2": [[0, "1"]],
+            "2,0": [[0, "1/2"], [1, "1/2"]], "2,1": [[1, "1"]], "2,2": [[0, "1"]]},
+    "init": [[0, "1/2"], [1, "1/2"]], "gamma": "4/5"}
+OTHER_LABELS = {"states": "str", "actions": "tuple", "obs": "float"}
+
+
+def num(x, int_types):
+    v = fl(x)
+    return int(v) if int_types and v == int(v) and abs(v) < 2**40 else v
+
+
+def build_labelled(case, labels, reward_scale=1.0, shift=0, int_types=False, shared=False):
     """TabularPOMDP over the case's ids relabelled by `labels` (kinds for states/actions/obs);
-    returns (pomdp, state label->id, action label->id, observation label->id)"""
+    returns (pomdp, state label->id, action label->id, observation label->id, caller objects).
+    shift: rows of state (s+shift) mod n are used for state s (a different problem, same labels/sizes);
+    int_types: integral rewards/probabilities are passed as Python ints; shared: ONE mutable list object is
+    returned by actions(s) for every state and the same distribution objects on every call."""
     from msdm.core.pomdp.tabularpomdp import TabularPOMDP
     from msdm.core.distributions import DictDistribution
     ls, la, lo = LABELS[labels["states"]], LABELS[labels["actions"]], LABELS[labels["obs"]]
+    n = case["n"]
+    sh = lambda s: (s + shift) % n
     trans, rew, obs = {}, {}, {}
-    for k, row in case["trans"].items():
-        s, a = map(int, k.split(","))
-        trans[(ls(s), la(a))] = DictDistribution({ls(ns): fl(p) for ns, p in row})
-    for k, r in case["reward"].items():
-        s, a, ns = map(int, k.split(","))
-        rew[(ls(s), la(a), ls(ns))] = fl(r) * reward_scale
-    for k, row in case["obs"].items():
-        a, ns = map(int, k.split(","))
-        obs[(la(a), ls(ns))] = DictDistribution({lo(o): fl(p) for o, p in row})
-    actions = {ls(s): tuple(la(a) for a in acts) for s, acts in enumerate(case["actions"])}
+    for s in range(n):
+        for a in range(case["nA"]):
+            row = case["trans"]["%d,%d" % (sh(s), a)]
+            trans[(ls(s), la(a))] = DictDistribution({ls(ns): num(p, int_types) for ns, p in row})
+            for ns, p in row:
+                r = case["reward"].get("%d,%d,%d" % (sh(s), a, ns))
+                if r is not None:
+                    rew[(ls(s), la(a), ls(ns))] = num(r, int_types) * (int(reward_scale) if int_types else reward_scale)
+    for a in range(case["nA"]):
+        for ns in range(n):
+            obs[(la(a), ls(ns))] = DictDistribution({lo(o): num(p, int_types) for o, p in case["obs"]["%d,%d" % (a, sh(ns))]})
+    shared_actions = [la(a) for a in range(case["nA"])]
+    actions = {ls(s): (shared_actions if shared else tuple(la(a) for a in acts)) for s, acts in enumerate(case["actions"])}
     absorbing = {ls(s): bool(x) for s, x in enumerate(case["absorbing"])}
-    init = DictDistribution({ls(s): fl(p) for s, p in case["init"]})
+    init = DictDistribution({ls(s): num(p, int_types) for s, p in case["init"]})
     gamma = fl(case["gamma"])
     if case["gamma"] in ("0", "1"):
         gamma = int(case["gamma"])            # boundary passed as int, not float
@@ -48,7 +72,7 @@ def build_labelled(case, labels, reward_scale=1.0):
             return trans[(s, a)]
 
         def reward(self, s, a, ns):
-            return rew.get((s, a, ns), 0.0)
+            return rew.get((s, a, ns), 0 if int_types else 0.0)
 
         def actions(self, s):
             return actions[s]
@@ -62,8 +86,24 @@ def build_labelled(case, labels, reward_scale=1.0):
         def observation_dist(self, a, ns):
             return obs[(a, ns)]
 
+    raw = {"trans": trans, "reward": rew, "obs": obs, "actions": actions, "absorbing": absorbing, "init": init}
     return (GeneratedPOMDP(), {ls(i): i for i in range(case["n"])}, {la(i): i for i in range(case["nA"])},
-            {lo(i): i for i in range(case["nO"])})
+            {lo(i): i for i in range(case["nO"])}, raw)
+
+
+def snapshot(raw):
+    """value snapshot of the caller's objects (to detect in-place modification by the library)"""
+    def d(x):
+        return tuple(sorted((repr(k), repr(v)) for k, v in x.items()))
+    return {"trans": tuple(sorted((repr(k), d(v)) for k, v in raw["trans"].items())),
+            "obs": tuple(sorted((repr(k), d(v)) for k, v in raw["obs"].items())),
+            "reward": d(raw["reward"]), "absorbing": d(raw["absorbing"]), "init": d(raw["init"]),
+            "actions": tuple(sorted((repr(k), repr(list(v))) for k, v in raw["actions"].items()))}
+
+
+def touch(p):
+    return (p.transition_matrix.sum(), p.observation_matrix.sum(), p.absorbing_state_vec.sum(),
+            p.state_action_reward_matrix.sum(), p.initial_state_vec.sum(), len(p.observation_list))
 
 
 def guarded(fn):
@@ -91,6 +131,8 @@ def representations(pomdp, sl, probs, which):
     reps = {"dense": Belief(tuple(sl), tuple(probs)),
             "support": Belief(tuple(sl[i] for i in supp), tuple(probs[i] for i in supp)),
             "permuted": Belief(tuple(sl[i] for i in perm), tuple(probs[i] for i in perm))}
+    if all(x in (0.0, 1.0) for x in probs):
+        reps["dense_int"] = Belief(tuple(sl), tuple(int(x) for x in probs))      # integer-typed belief
     if which == "qmdp":
         reps["pair_of_lists"] = ([sl[i] for i in perm], [probs[i] for i in perm])
     else:
@@ -110,6 +152,7 @@ def query(policy, pomdp, sl, al, beliefs, which, sid, initial_index=None):
         reps = representations(pomdp, sl, probs, which)
         if bi == initial_index:
             reps["initial_agentstate"] = policy.initial_agentstate()    # the belief object the library builds
+        before = {k: repr(v) for k, v in reps.items() if k in ("list", "dict", "dict_support", "pair_of_lists")}
         for name, b in reps.items():
             def one(b=b):
                 dist = policy.action_dist(b)
@@ -122,6 +165,7 @@ def query(policy, pomdp, sl, al, beliefs, which, sid, initial_index=None):
                 res["reps"] = {}
             else:
                 res["reps"][name] = r
+        res["mutated_beliefs"] = [k for k, v in before.items() if repr(reps[k]) != v]
         out.append(res)
     return out
 
@@ -135,20 +179,38 @@ def one(case, pl):
     from msdm.algorithms.policyiteration import PolicyIteration
 
     labels = case.get("labels") or {"states": "int", "actions": "int", "obs": "int"}
-    pomdp, sid, aid, oid = build_labelled(case["pomdp"], labels)
+    it_, shd = bool(case.get("int_types")), bool(case.get("shared_objects"))
+    mode = case.get("reuse") or None
+    if mode is True:
+        mode = "warm-twisted-first"
+    if case.get("twin_first"):
+        # the same labels with different numbers, and unrelated problems, are constructed AND USED first
+        # (class-level / module-level caches would hand their data to the real problem)
+        twin = build_labelled(case["pomdp"], labels, reward_scale=64.0, shift=1)[0]
+        guarded(lambda: touch(twin))
+        for _ in range(int(case.get("unrelated", 0))):
+            guarded(lambda: touch(build_labelled(OTHER_CASE, OTHER_LABELS)[0]))
+    pomdp, sid, aid, oid, raw = build_labelled(case["pomdp"], labels, int_types=it_, shared=shd)
+    snap0 = snapshot(raw)
     warm = None
-    if case.get("reuse"):
-        # same labels, rewards x64: planners are first used on this one, then REUSED on `pomdp`
-        warm = build_labelled(case["pomdp"], labels, reward_scale=64.0)[0]
+    if mode == "warm-twisted-first":
+        # same labels and sizes, other numbers (rows shifted by one state, rewards x64)
+        warm = build_labelled(case["pomdp"], labels, reward_scale=64.0, shift=1)[0]
+    elif mode in ("other-first", "stale"):
+        warm = build_labelled(OTHER_CASE, OTHER_LABELS)[0]     # another size, other labels
     if case.get("touch_first"):
         # cached views of the base object are touched before any planner sees it
-        _ = (pomdp.transition_matrix.sum(), pomdp.observation_matrix.sum(), pomdp.absorbing_state_vec.sum(),
-             pomdp.state_action_reward_matrix.sum(), pomdp.initial_state_vec.sum())
+        touch(pomdp)
     sl, al, ol = list(pomdp.state_list), list(pomdp.action_list), list(pomdp.observation_list)
     res = {"state_list": [sid[x] for x in sl], "action_list": [aid[x] for x in al],
            "observation_list": [oid[x] for x in ol],
-           "absorbing_vec": [bool(x) for x in pomdp.absorbing_state_vec]}
+           "absorbing_vec": [bool(x) for x in pomdp.absorbing_state_vec], "reuse_errors": []}
     ii = case.get("initial_index")
+
+    def on_warm(planner):
+        r = guarded(lambda: planner.plan_on(warm))
+        if isinstance(r, dict) and "error" in r:
+            res["reuse_errors"].append(r["error"])      # the auxiliary problem itself is not judged
 
     # ---- PBVI ----
     calls = []
@@ -193,10 +255,15 @@ def one(case, pl):
                 min_belief_expansions=int(cfg["min_exp"]), max_belief_expansions=int(cfg["max_exp"]),
                 value_convergence_epsilon=eps,
                 horizon=None if cfg["horizon"] is None else int(cfg["horizon"]))
-            if warm is not None:
-                planner.plan_on(warm)
+            if warm is not None and mode != "stale":
+                on_warm(planner)
                 del calls[:]
             r = planner.plan_on(pomdp)
+            mine = list(calls)
+            if mode == "stale":
+                on_warm(planner)          # the FIRST result is queried only after this second plan_on
+            del calls[:]
+            calls.extend(mine)
         finally:
             pbvi_mod.point_based_value_iteration = orig
         return {"alpha_vectors": [[fj(x) for x in v] for v in np.array(r.alpha_vectors)],
@@ -213,13 +280,17 @@ def one(case, pl):
         def run_q():
             # "pi" = QMDP() with its default solver (mdp_solver=None)
             planner = QMDP(mdp_solver=ValueIteration(max_residual=1e-10)) if name == "vi" else QMDP()
-            if warm is not None:
-                planner.plan_on(warm)
+            if warm is not None and mode != "stale":
+                on_warm(planner)
             r = planner.plan_on(pomdp)
+            if mode == "stale":
+                on_warm(planner)
             Q = r.mdp_res.action_value
             return {"Q": [[fj(Q[s][a]) for a in al] for s in sl],
                     "queries": query(r.policy, pomdp, sl, al, case["beliefs"], "qmdp", sid, ii)}
         res["qmdp"][name] = guarded(run_q)
+    snap1 = snapshot(raw)
+    res["mutated_inputs"] = [k for k in snap0 if snap0[k] != snap1[k]]
     return res
 
 
